@@ -4,7 +4,7 @@ from irbmc import core
 from irbmc.core import Family, Harness, STRING_MODEL
 
 NOINLINE = [r'chaiscript::detail::Cast_Helper_Inner<.*>::cast', r'bad_any_cast::bad_any_cast', r'std::runtime_error::runtime_error', r'chaiscript::Boxed_Value::Object_Data::get',
-            r'chaiscript::Boxed_Value::Data::Data', r'std::make_shared<', r'chaiscript::detail::Any::Any<', r'chaiscript::detail::Any::~Any', r'std::shared_ptr<.*>::~shared_ptr', r'std::shared_ptr<.*>::shared_ptr\(', r'chaiscript::Boxed_Value::assign\(', r'chaiscript::Boxed_Value::Boxed_Value<', r'bad_boxed_cast::bad_boxed_cast'] + STRING_MODEL
+            r'chaiscript::Boxed_Value::Data::Data', r'std::make_shared<', r'chaiscript::detail::Any::Any<', r'chaiscript::detail::Any::~Any', r'std::shared_ptr<.*>::~shared_ptr', r'std::shared_ptr<.*>::shared_ptr\(', r'chaiscript::Boxed_Value::assign\(', r'chaiscript::Boxed_Value::Boxed_Value<', r'bad_boxed_cast::bad_boxed_cast', r'pointer_sentinel<.*>\(.*\) const::Sentinel::'] + STRING_MODEL
 FAM = Family('boxed', 'boxed.cpp', noinline=NOINLINE)
 FORMS = {1: ('int', r'Cast_Helper_Inner<int>::cast'), 2: ('const int&', r'Cast_Helper_Inner<int const&>::cast'), 3: ('int&', r'Cast_Helper_Inner<int&>::cast'),
          4: ('int*', r'Cast_Helper_Inner<int\*>::cast'), 5: ('const int*', r'Cast_Helper_Inner<int const\*>::cast')}
@@ -100,4 +100,4 @@ def harnesses(tier):
     return hs
 
 ASSUMPTIONS = ['the Data object satisfies its constructor invariant (m_data_ptr == nullptr iff const)', 'typeinfo objects are compared by address (one object per type, as after linking)']
-OUTSIDE = ['conversion fallback of boxed_cast (Type_Conversions search)', 'dispatch over overload sets (D4) and function ordering (D5): to be added', 'shared_ptr / reference_wrapper / std::function forms']
+OUTSIDE = ['conversion fallback of boxed_cast (Type_Conversions search)', 'function ordering on registration (function_less_than) and dispatch_with_conversions', 'up-casts (Static_Caster) and user conversions; shared_ptr / reference_wrapper / std::function parameter forms']
